@@ -39,7 +39,7 @@ class Engine:
         self.max_open = 0
 
     def payload(self):
-        return {"pool": [{"type": p["type"], "data": p["data"], "cc": p["cc"], "enc": p["enc"]} for p in self.pool], "history": self.history}
+        return {"pool": [{"type": p["type"], "data": p["data"], "cc": p["cc"], "enc": p["enc"], "parts": p.get("parts")} for p in self.pool], "history": self.history}
 
     def _marshal(self, i, mode):
         from tpmstream.io.binary import Binary
@@ -161,6 +161,25 @@ class Engine:
                 obj = stop.value
             self.open.remove(slot)
             self._finished(slot[0], slot[1], slot[3], obj, "step-wise")
+        elif kind == "split":
+            # the messages of a stream decoded one by one (each response with the code and the encryption request of the
+            # command before it): "results of separate decodes [and] of stream decodes ... are mutually comparable"
+            from tpmstream.io.binary import Binary
+            from tpmstream.spec.structures.constants import TPM_CC
+
+            _, i = s
+            parts = self.pool[i].get("parts")
+            if not parts:
+                return
+            events = []
+            for tname, cc, enc, a, b in parts:
+                kw = dict(tpm_type=O.lib_type(tname), buffer=self.pool[i]["data"][a:b], abort_on_error=True)
+                if tname == "Response":
+                    kw["command_code"] = TPM_CC(cc)
+                    if enc:
+                        kw["parameter_encryption"] = True
+                events.extend(Binary.marshal(**kw))
+            self._record((i, "decode"), (events, None), f"message-by-message decode of stream {i}")
         elif kind == "objs":
             from tpmstream.common.object import events_to_obj, events_to_objs
             from tpmstream.spec.structures.constants import TPM_CC
@@ -213,9 +232,14 @@ def pools(draw, L):
         elif which <= 7:
             c = draw(gen.structures(L))
         else:
-            c = draw(gen.streams(L, max_pairs=2))
+            c = draw(gen.streams(L, max_pairs=2 if which == 8 else 3))
         encrypted_area = any(t.endswith("#enc") for p, t, v in c.tokens)
-        pool.append({"type": c.type, "data": c.data, "cc": c.cc, "enc": bool(c.enc), "encrypted_area": encrypted_area})
+        parts = None
+        if c.type == "CommandResponseStream":
+            from .c09 import message_ranges
+
+            parts = [[kind, cc, enc, a, b] for kind, cc, enc, a, b, m in message_ranges(L, c)]
+        pool.append({"type": c.type, "data": c.data, "cc": c.cc, "enc": bool(c.enc), "encrypted_area": encrypted_area, "parts": parts})
     return pool
 
 
@@ -308,6 +332,12 @@ def run_shard(ctx):
         @rule(i=st.integers(0, 5))
         def objs(self, i):
             self.e.step(("objs", i % len(self.e.pool)))
+
+        @rule(i=st.integers(0, 5))
+        def split(self, i):
+            streams = [k for k, p in enumerate(self.e.pool) if p.get("parts")]
+            if streams:
+                self.e.step(("split", streams[i % len(streams)]))
 
         @rule(i=st.integers(0, 5))
         def canon(self, i):
